@@ -16,8 +16,8 @@ import c12_gen as G
 
 META = {
     "category": "proof",
-    "text": "Coq theorems (Log/Props_C12.v, closed under the global context) over an executable model of sst/src/log.rs (WriteBatch, LogBuilder::_append/append_split/true_up, LogIterator::next/next_frame/next_header/true_up, the prototk header and entry codecs) for every block size > HEADER_MAX_SIZE, every batch size/count and an arbitrary crc function: reading a written log returns exactly the entries of the successfully appended batches in order and ends cleanly; reading ANY byte prefix of it returns exactly the batches wholly inside the prefix and then ends or errors; a consumer that keeps calling next() after an error gets a clean end on every cut, never an entry (C12_nothing_after_error; fix 71e5745); the writer never panics, lays frames out as whole | first+padding+second with padding <= HEADER_MAX_SIZE, fails only at the two size checks; the reader is total on arbitrary bytes; plus, for every schedule of ConcurrentLogBuilder::append over the wait-list-level model of sync42's WorkCoalescingQueue that area Sync42 proves correct (two copies of Sync42/ModelWcq.v instantiated with WriteCoalescingCore and FsyncCoalescingCore and glued as append glues them; threads as program counters, mutexes, condition variables with spurious wake-ups, rings smaller than the number of threads; no atomicity assumed): no panic, the file is the sequential log of the merged batches (each linked request at most once, whole, in link order), a call returns Ok only after an fdatasync covering its bytes completed, no fdatasync is issued or trusted after one has failed (fix be5f137), and an acknowledged batch is read back from every cut at or after the durable mark. The model is tied to the code by differential runs on boundary-solved logs (0..25 bytes before the 1 MiB boundary), all truncations in windows around boundaries/frame ends, mutated and raw malformed files, multi-threaded appends (file decomposition + strace ordering of write/fdatasync/ack, also with one fdatasync made to fail by strace fault injection); after every read error both sides call next() three more times and the results are compared.",
-    "note": "Outside the property and not modelled: ConcurrentLogBuilder::fsync() (fsync_cq.do_work(0) returns true without a system call when it is alone, although its doc says all previously written data is durable; lsmtk does not call it) and the `poison` flag (written, never read; the fsync core is sticky instead). Trusted: Coq kernel; tools/constants.py; ExtrOcamlBasic extraction + ocaml/log/mx_log.ml (incl. its crc32c); harness c12; strace. crc32c is an arbitrary function (no property used). I/O errors other than short reads, and the BufWriter/BufReader internals, are outside the model. The concurrent theorems rest on Sync42's invariant of the queue machine (imported, not re-proved) and on: ModelWcq.v being the real queue (C18's correspondence), the four glue lines of append, and the meaning of fdatasync.",
+    "text": "Coq theorems (Log/Props_C12.v, closed under the global context) over an executable model of sst/src/log.rs (WriteBatch, LogBuilder::_append/append_split/true_up, LogIterator::next/next_frame/next_header/true_up, the prototk header and entry codecs) for every block size > HEADER_MAX_SIZE, every batch size/count and an arbitrary crc function: reading a written log returns exactly the entries of the successfully appended batches in order and ends cleanly; reading ANY byte prefix of it returns exactly the batches wholly inside the prefix and then ends or errors; a consumer that keeps calling next() after an error gets a clean end on every cut, never an entry (C12_nothing_after_error; fix 71e5745); the writer never panics, lays frames out as whole | first+padding+second with padding <= HEADER_MAX_SIZE, fails only at the two size checks; the reader is total on arbitrary bytes; plus, for every schedule of ConcurrentLogBuilder::append over the wait-list-level model of sync42's WorkCoalescingQueue that area Sync42 proves correct (two copies of Sync42/ModelWcq.v instantiated with WriteCoalescingCore and FsyncCoalescingCore and glued as append glues them; threads as program counters, mutexes, condition variables with spurious wake-ups, rings smaller than the number of threads; no atomicity assumed): no panic, the file is the sequential log of the merged batches (each linked request at most once, whole, in link order), a call returns Ok only after an fdatasync covering its bytes completed, no fdatasync is issued or trusted after one has failed (fix be5f137), an append is refused by `poison` only after some call was answered with an error (b7cac52), and an acknowledged batch is read back from every cut at or after the durable mark. The model is tied to the code by differential runs on boundary-solved logs (0..25 bytes before the 1 MiB boundary), all truncations in windows around boundaries/frame ends, mutated and raw malformed files, multi-threaded appends (file decomposition + strace ordering of write/fdatasync/ack, also with one fdatasync made to fail by strace fault injection); after every read error both sides call next() three more times and the results are compared.",
+    "note": "Outside the property and not modelled: ConcurrentLogBuilder::fsync() (fsync_cq.do_work(0) returns true without a system call when it is alone, although its doc says all previously written data is durable; lsmtk does not call it) ; I/O write errors (52fc470 FailStop) are outside the model. The `poison` flag (read at the top of append since b7cac52) is modelled: C12_conc_refused_only_after_error. Trusted: Coq kernel; tools/constants.py; ExtrOcamlBasic extraction + ocaml/log/mx_log.ml (incl. its crc32c); harness c12; strace. crc32c is an arbitrary function (no property used). I/O errors other than short reads, and the BufWriter/BufReader internals, are outside the model. The concurrent theorems rest on Sync42's invariant of the queue machine (imported, not re-proved) and on: ModelWcq.v being the real queue (C18's correspondence), the four glue lines of append, and the meaning of fdatasync.",
 }
 
 PROPS = "theories/Log/Props_C12.v"
@@ -63,6 +63,23 @@ def run_parallel(exe, lines, workdir, tag, nproc, env=None, prefix=""):
         for i, r in zip(b, res):
             out[i] = r
     return out
+
+
+CONC_TIMEOUT = 90      # seconds; a concurrent case that has not finished by then hangs ("HANG")
+
+
+def run_each(exe, lines, nproc, timeout):
+    """one process per line (a hung case must not take the others with it); 'HANG' on timeout"""
+    from concurrent.futures import ThreadPoolExecutor
+
+    def one(line):
+        try:
+            p = subprocess.run([exe], input=(line + "\n").encode(), stdout=subprocess.PIPE, stderr=subprocess.DEVNULL, timeout=timeout)
+            return p.stdout.decode().strip() or "HARNESS-PANIC"
+        except subprocess.TimeoutExpired:
+            return "HANG"
+    with ThreadPoolExecutor(max_workers=max(1, nproc)) as ex:
+        return list(ex.map(one, lines))
 
 
 def split_out(line):
@@ -199,7 +216,7 @@ def run(chk):
 
     # ---- concurrent appends
     conc = G.gen_conc_cases(rng.fork(), quick, stats)
-    conc_out = run_parallel(hxbin, [c.line for c in conc], chk.work, "conc", min(4, nproc))
+    conc_out = run_each(hxbin, [c.line for c in conc], min(4, nproc), CONC_TIMEOUT)
     conc_bad = []
     for c, o in zip(conc, conc_out):
         for what, detail in G.check_conc(c, o):
@@ -266,8 +283,7 @@ def replay(path):
         print("verdict  :", [b[:2] for b in info["bad"]] or "holds (in 5 runs)")
         return 1 if info["bad"] else 0
     if isinstance(case, str):          # a concurrent case line
-        p = subprocess.run([hxbin], input=(case + "\n").encode(), stdout=subprocess.PIPE)
-        o = p.stdout.decode().strip()
+        o = run_each(hxbin, [case], 1, CONC_TIMEOUT)[0]
         print("impl now :", o[:3000])
         bad = G.check_conc(G.ConcCase(case, "replay"), o)
         print("verdict  :", bad or "holds")
